@@ -396,6 +396,16 @@ def run(seed, tier, replay=None):
         if ics.shape != (len(ys),) or ips.shape != (len(ys),) or np.shape(sc0) != () or np.shape(sp0) != ():
             rep.violate(what="cdf/pdf output shape differs from input shape", input=base)
             continue
+        if len(ys) >= 6 and hash((a, b, c)) % 4 == 0:
+            for name, fn in (("cdf", d.cdf), ("pdf", d.pdf)):
+                with np.errstate(all="ignore"):
+                    try:
+                        fails = C.shape_probe(fn, ys)
+                    except Exception as e:  # noqa: BLE001
+                        fails = [("?", "raised " + repr(e))]
+                for sh, msg in fails[:1]:
+                    rep.violate(what=f"{name}: {msg} (output shape must equal input shape)", input=dict(base, ys=[C.fhex(y) for y in ys[:6]]),
+                                call=f"NoisyQuadraticDistribution.{name}")
         w = b - a
         wref = w if w > 0 else (o if o > 0 else 1.0)
         reg = regime_of(a, b, o)
